@@ -87,7 +87,7 @@ impl PropImpl for C14 {
          Non-trivial: a relation with >= 2 optional parts or a multi-term profile group. Distinct by hash of the value.".into()
     }
     fn budget(&self, tier: Tier) -> Budget {
-        Budget { cases_per_lane: if tier == Tier::Quick { 4000 } else { 100_000 }, tape_max: 400, cpu_s: 10 }
+        Budget { cases_per_lane: if tier == Tier::Quick { 20000 } else { 100_000 }, tape_max: 400, cpu_s: 10 }
     }
     fn spaces(&self, _tier: Tier) -> Vec<Space> {
         vec![Space { name: "one relation: all part subsets x operators x names".into(), size: 2 * 2 * 6 * 3 * 3, exhaustive: true }]
